@@ -20,7 +20,9 @@ RULE = ("tie P (program capture): for every (helper, graph-or-grid, is_active fo
         "search: the set of activity patterns accepted by the really posted program (all-solutions enumeration with z3 "
         "over the is_active variables; the harness's own tree->z3 translation, not cspuz.backend.z3) is compared with "
         "the independent Python oracle 'no edge with two active endpoints, and the inactive vertices are connected' "
-        "for every pattern of every graph / grid shape in scope, and the grid form is compared with the explicit-graph "
+        "for every pattern of every graph / grid shape in scope (all multigraphs with <= 4 vertices and <= 4 edges incl. "
+        "self-loops (thorough: 5 edges), every simple graph on 5 vertices, random multigraphs; every grid shape with "
+        "h*w <= 12, thorough 16), and the grid form is compared with the explicit-graph "
         "form on the same grid; constant (Python bool) patterns are evaluated directly; the Coq specifications "
         "(independent_b, connected_b, spec_diag_b) are validated against the same oracle; z3 rank models are re-checked "
         "by the Coq certificate checker cert_diag and the Coq rank construction diag_rank is replayed on the real program.")
@@ -209,9 +211,13 @@ def some_expr(s, pool, rng):
     return [v, ~v, v & w, v | w, (v == w), v ^ w, ~(v & ~w)][rng.randrange(7)]
 
 
-def make_arg_1d(s, n, form, rng):
-    """returns (argument object, kind tag 'S'|'1'|'2 h w', trees)"""
+def make_arg_1d(s, n, form, rng, want_array=False):
+    """returns (argument object, kind tag 'S'|'1'|'2 h w', trees); want_array: wrap list forms into a
+    BoolArray1D (the segmenting helper only accepts arrays on the explicit-graph route)"""
     from cspuz.array import BoolArray1D, BoolArray2D
+    if want_array and form in ("vars", "or", "const", "mixed-list", "tuple"):
+        _, _, l = make_arg_1d(s, n, form, rng)
+        return BoolArray1D(l), "1", list(l)
     if form == "array":
         a = s.bool_array(n)
         return a, "1", list(a.data)
@@ -322,7 +328,8 @@ def add_case(ctx, reqs, metas, helper, gspec, form, style, prim, two_d=None, wro
     if two_d is not None:
         arg, tag, trees = make_arg_2d(s, two_d[0], two_d[1], form, ctx.rng)
     else:
-        arg, tag, trees = make_arg_1d(s, gspec[0] if gspec else ctx.rng.randrange(1, 5), form, ctx.rng)
+        arg, tag, trees = make_arg_1d(s, gspec[0] if gspec else ctx.rng.randrange(1, 5), form, ctx.rng,
+                                      want_array=(helper == "NS" and gspec is not None and ctx.rng.random() < 0.85))
     g = graphcap.mk_graph(gspec[0], gspec[1]) if gspec is not None else None
     pre = exprio.show_state(s)
     try:
@@ -448,12 +455,9 @@ def search_graphs(ctx):
     for n, es in graphcap.all_multigraphs(4, 5 if (ctx.thorough or ctx.deep) else 4, loops=True):
         if emit(n, es):
             yield n, es
-    # 5 vertices: simple graphs (all of them in thorough / deep mode, a spread otherwise)
+    # 5 vertices: every simple graph
     pairs = [(a, b) for a in range(5) for b in range(a + 1, 5)]
-    masks = range(1 << len(pairs))
-    if not (ctx.thorough or ctx.deep):
-        masks = sorted(set(rng.sample(range(1 << len(pairs)), 140)) | {0, (1 << len(pairs)) - 1})
-    for mk in masks:
+    for mk in range(1 << len(pairs)):
         es = [pairs[i] for i in range(len(pairs)) if mk >> i & 1]
         if emit(5, es):
             yield 5, es
